@@ -51,6 +51,14 @@ def replay_profile_trace(pid, v):
     return None if ok else ctx.violations[0][2]
 
 
+@replayer("profile_numtrace")
+def replay_profile_numtrace(pid, v):
+    ctx = vlib.Ctx(pid + "_replay", "quick", 1)
+    bindir = build_harness(["profile"])
+    ok = trace_check(ctx, "ProfileNumTrace", bindir, "profile", v["record_args"], "numeric", "MotionProfile trajectory", "profile_numtrace")
+    return None if ok else ctx.violations[0][2]
+
+
 @register("C06")
 def c06(ctx):
     q = ctx.tier == "quick"
@@ -71,13 +79,21 @@ def c06(ctx):
 @register("C07")
 def c07(ctx):
     q = ctx.tier == "quick"
-    run_profile(ctx, "c07", rich=not q)
+    bindir = run_profile(ctx, "c07", rich=not q)
+    trace_check(ctx, "ProfileNumTrace", bindir, "profile", [ctx.seed, 600 if q else 12000, "num"], "numeric", "MotionProfile trajectory", "profile_numtrace")
     ctx.rule = ("Every feasible move of the exact family is compared, at every half tick of [0, t3] and after completion, with the reference "
                 "trapezoid of MotionProfile.tla (acceleration, velocity, position as exact rationals), under 5 tick / scale concretisations and "
                 "with both signs of the limits; TLC checks on the reference: sign pattern of the acceleration, continuity at t1 / t2, start and "
                 "end values, the speed limit, position = trapezoid integral of velocity, negation symmetry, acceptance of long moves; the "
                 "harness also builds the negated request and demands exactly negated outputs; infeasible requests must be refused. "
+                "impl -> spec: profiles built from random arguments of the whole stated range (positions +-1e4, limits 1e-2..1e3, speeds "
+                "within the limit) are queried at t = 0, at each boundary +-1 ns and at 24 random instants together with the negated request; "
+                "TLC validates the log against ProfileNumTrace.tla: acceleration key = +a / 0 / -a per piece with the sign of the displacement, "
+                "exact start values at t = 0, exactly negated outputs of the negated request, and speed limit / continuity at the joins / "
+                "arrival at the goal within 8 (velocity) or 16 (position) f32 epsilons of the magnitudes involved. "
                 "Non-trivial = an accepted move.")
-    ctx.assumptions += ["exact dyadic domain (durations are whole ticks, limits and speeds small dyadic rationals): agreement within 2^-16 of the "
-                        "largest magnitude; the rounding-tolerance clause for arbitrary non-dyadic arguments is not decided by this check"]
-    ctx.exhaustive = True
+    ctx.assumptions += ["exact family: durations are whole ticks, limits and speeds small dyadic rationals, agreement within 2^-16 of the largest "
+                        "magnitude; on arbitrary arguments the integral relation between position and velocity is checked only through "
+                        "continuity and arrival at the end position, and the tolerance factors (8 / 16 epsilon of max(|x|, v t3, a t3^2)) are the "
+                        "check's reading of 'a rounding tolerance proportional to f32 epsilon times the magnitudes involved'"]
+    ctx.exhaustive = False
